@@ -1611,6 +1611,11 @@ fn oracle(c: &Case, ctx: &mut Ctx) -> CaseResult {
 					// branch the library claims unreachable; production ignores that hop's limit.
 					let key = if stale_sig { "first-hop-peer-is-blinded-intro/lib-assert".to_string() } else { "lib-tripwire/max-final-value-branch-claimed-unreachable".to_string() };
 					Failure::new("lib-assert", format!("query {}: library debug assertion at {} fired inside find_route: {}", qi, loc, msg)).with_key(key)
+				} else if in_router && msg.contains("entered unreachable code") {
+					// not an assertion: `unreachable!()` panics in production builds as well (seen in
+					// update_value_and_recompute_fees when amount * ppm overflows u64 after two identical parts
+					// were merged). Keyed by site without the line number.
+					Failure::new("panic", format!("query {}: find_route panicked at {}: {}", qi, loc, msg)).with_key("panic/router-unreachable-code")
 				} else {
 					Failure { oracle: "panic".into(), detail: format!("query {}: find_route panicked at {}: {}", qi, loc, msg), key: format!("panic@{}", loc) }
 				};
